@@ -46,7 +46,7 @@ class DrvProp(diffcheck.DiffProp):
     uses_consts = False
     trusted_base = [
         "Coq 8.16.1 kernel (coqc, full .vo build)",
-        "extraction: ExtrOcamlBasic only; coq/extract/driver.ml; coq/model/RunDRV.v decoder",
+        "extraction: ExtrOcamlBasic only; coq/extract/driver.ml; coq/model/RunDRV.v decoder (three acceptors: DriverKeys.step, ResultSlot.wstep, PollDrv.astep)",
         "hook commit(s) in /repo: compio_driver::verif event log (cfg(compio_verif), add-only) report faithfully",
         "harness/rt/src/bin/drv.rs (program interpreter, event renumbering), tools/gen_drv.py, tools/p_drv.py oracles",
     ]
